@@ -172,6 +172,13 @@ PrivFailures(S, T, e, out) ==
   IN
     F("JoinNeedsEntitlement",
       \A c \in DOMAIN S.ch : \A x \in gained(c) : x = a /\ joinOK(c))
+    \cup F("ResolvedBanStored",
+      (* a ban whose mask names a session host (robust/0x..) is stored with that session's ADDRESS as well *)
+      (* (banBoth), so that the same user coming back as another session stays banned                       *)
+      \A c \in common :
+        \A i \in {i \in 1..Len(T.ch[c].bans) : ~\E j \in 1..Len(S.ch[c].bans) : S.ch[c].bans[j] = T.ch[c].bans[i]} :
+          LET b == T.ch[c].bans[i]  re == ReOfMask(b.m)  ra == ResolveAddr(T, re) IN
+          (b.r = re /\ ra # re) => \E k \in 1..Len(T.ch[c].bans) : T.ch[c].bans[k].m = b.m /\ T.ch[c].bans[k].r = ra)
     \cup F("CaptchaProofOnlyFromCaptcha",
       (* the time of the last solved captcha (which opens +x channels for a minute) moves only when the entry *)
       (* itself carried a valid captcha: the grace period cannot renew itself                                  *)
